@@ -93,15 +93,15 @@ class BackgroundTimePDF(
         """
         times = tdm.get_data('time')
 
-        # The live-time and the time flux profile instances might have been
-        # changed since the last trial.
-        self._update_S()
-
         self._pd = np.zeros((len(times),), dtype=np.float64)
 
         # Get a mask of the event times which fall inside a detector on-time
         # interval.
         on = self._livetime.is_on(times)
+
+        # The live-time and the time flux profile instances might have been
+        # changed since the last trial.
+        self._update_S()
 
         self._pd[on] = self._time_flux_profile(t=times[on]) / self._S
 
